@@ -22,7 +22,7 @@
 From Coq Require Import List ZArith Bool String.
 From V Require Import Gen.Params Lib.Hex Wire.Varint USpec.Model UDial.Model.
 From V Require Export UDial.Retx.   (* the harness prints rop / rres constructors *)
-From V Require Import UDial.Reg.
+From V Require Import UDial.Reg UDial.Heap.
 Import ListNotations.
 Open Scope Z_scope.
 
@@ -70,6 +70,26 @@ Definition placeholder_fresh (n : nat) : list (list Z) := repeat (repeat 1 32%na
 
 Definition keylens (ks : list keyshare) : list (Z * Z) := map (fun k => (kGroup k, zlen (kData k))) ks.
 
+Definition param_eqb (a b : param) : bool :=
+  (pid a =? pid b) && zeqb_list (pval a) (pval b) && Bool.eqb (ptyped a) (ptyped b).
+Fixpoint params_eqb (a b : list param) : bool :=
+  match a, b with
+  | [], [] => true
+  | x :: a', y :: b' => param_eqb x y && params_eqb a' b'
+  | _, _ => false
+  end.
+(* the object-level dial (UDial.Heap) on the spec's transport parameter object: the spec's object
+   is left alone and the connection's own object caches the bytes the value-level dial sends *)
+Definition heap_agrees (st1 : spec_state) (scid : list Z) (o : oracle) (w : wire_view) : bool :=
+  match heap_dial (sSup st1) (sRnd st1) scid o [OTP (sParams st1) None] [0%nat] with
+  | Some (h2, _) =>
+    match hget h2 0, hget h2 1 with
+    | OTP p0 None, OTP _ (Some b) => params_eqb p0 (sParams st1) && zeqb_list b (wExt w)
+    | _, _ => false
+    end
+  | None => false
+  end.
+
 Fixpoint replay (st : spec_state) (steps : list step) : obs :=
   match steps with
   | [] => OSeq []
@@ -79,6 +99,7 @@ Fixpoint replay (st : spec_state) (steps : list step) : obs :=
     match dial st1 (hx scid) o with
     | None => OPanic []
     | Some (st2, w) =>
+      if negb (heap_agrees st1 (hx scid) o w) then OPanic [] else
       let so : step_obs := (sParams st2, keylens (sKeys st2), sSNI st2, parse (wExt w), wSNI w) in
       match replay st2 r with
       | OSeq l => OSeq (so :: l)
@@ -153,7 +174,7 @@ Fixpoint reg_ok (st : rgstate) (steps : list regstep) : bool :=
   | [] => true
   | GStep o obs :: r =>
     let st' := reg_apply st o in
-    (match o with GDial _ _ ok => ok | _ => true end) &&   (* registered => the replies arrive *)
+    (match o with GDial k id ok => Bool.eqb ok (snd (rgdial st k id)) | _ => true end) &&   (* accepted <=> the dial works and its replies arrive *)
     forallb (reg_obs_ok st') obs && reg_ok st' r
   end.
 
@@ -165,14 +186,6 @@ Definition model_obs (c : case) : obs :=
   | Reg steps => ORetx (reg_ok (RG [] []) steps)
   end.
 
-Definition param_eqb (a b : param) : bool :=
-  (pid a =? pid b) && zeqb_list (pval a) (pval b) && Bool.eqb (ptyped a) (ptyped b).
-Fixpoint params_eqb (a b : list param) : bool :=
-  match a, b with
-  | [], [] => true
-  | x :: a', y :: b' => param_eqb x y && params_eqb a' b'
-  | _, _ => false
-  end.
 Fixpoint idvals_eqb (a : list (Z * list Z)) (b : list (Z * string)) : bool :=
   match a, b with
   | [], [] => true
